@@ -719,10 +719,10 @@ func (e *ConcatExpression) Evaluate(ctx *Context, input system.Collection) (syst
 
 	// Convert empty collection to empty string
 	if len(leftResult) == 0 {
-		leftResult = append(leftResult, system.String(""))
+		leftResult = system.Collection{system.String("")} // never append into an operand's backing array
 	}
 	if len(rightResult) == 0 {
-		rightResult = append(rightResult, system.String(""))
+		rightResult = system.Collection{system.String("")} // never append into an operand's backing array
 	}
 
 	if len(leftResult) > 1 || len(rightResult) > 1 {
